@@ -229,6 +229,9 @@ func (d *DHCP) Write(b []byte) (n int, err error) {
 	if err = binary.Read(buf, binary.BigEndian, &clientHWAddr); err != nil {
 		return
 	}
+	if int(d.HardwareLen) > len(clientHWAddr) {
+		return n, errors.New("Bad DHCP header: hardware address length exceeds the 16-byte chaddr field")
+	}
 	d.ClientHWAddr = net.HardwareAddr(clientHWAddr[:d.HardwareLen])
 	n += 16
 
